@@ -79,6 +79,12 @@ def main():
             open(os.path.join(out_dir, m["name"] + ".patch"), "w").write(diff)
             subprocess.check_call(["git", "-C", wt, "checkout", "-q", "--", "."])
             index.append(dict(name=m["name"], patch=m["name"] + ".patch", description=m["desc"]))
+        # keep the independently written variants (conf-ind-*), which are not generated here
+        try:
+            prev = json.load(open(os.path.join(out_dir, "index.json")))
+            index += [e for e in prev if e["name"].startswith("conf-ind-")]
+        except Exception:
+            pass
         json.dump(index, open(os.path.join(out_dir, "index.json"), "w"), indent=1)
         print("wrote", len(index), "conforming variants")
     finally:
